@@ -20,6 +20,7 @@ from harness.lib import common, cppdrv, embref, viewcorr
 
 PROP = "C01"
 KEY_DYN = "monotone:fixed-size-type-in-dynamically-sized-field"
+KEY_ARG = "constants:size-above-max-size:argument-outside-parameter-range"
 
 
 def dyn_sized_fixed_fields(prepared):
@@ -42,10 +43,43 @@ def dyn_sized_fixed_fields(prepared):
     return out
 
 
+def constants_violations(t, key, seen, path=""):
+    """`C01_constants`: the min/max size constants of a structure are the same on every buffer
+    (the empty one included) and bracket every size the view reports:
+    MinSizeIn… ≤ SizeIn… ≤ MaxSizeIn…  (doc/cpp-reference.md: "the maximum/minimum size of the
+    structure in any valid configuration").  Recurses into nested structure observations."""
+    out = []
+    if t["k"] == "array":
+        for i, e in enumerate(t["elems"]):
+            out += constants_violations(e, key + ("[]",), seen, "%s[%d]" % (path, i))
+        return out
+    if t["k"] != "struct":
+        return out
+    consts = {}
+    for n, h, o in t["fields"]:
+        if n.startswith("$max_size_in_") or n.startswith("$min_size_in_"):
+            if h != "T" or not o.get("ok") or o.get("value") is None:
+                out.append("%s.%s is not a readable constant (has=%s %r)" % (path, n, h, o))
+            else:
+                consts[n[:4]] = int(o["value"])
+                old = seen.setdefault(key + (n,), o["value"])
+                if old != o["value"]:
+                    out.append("%s.%s changes with the buffer: %s vs %s" % (path, n, old, o["value"]))
+        elif o.get("k") in ("struct", "array"):
+            out += constants_violations(o, key + (n,), seen, path + "." + n)
+    if t["size_known"]:
+        if "$min" in consts and t["size"] < consts["$min"]:
+            out.append("%s: size %d < MinSize %d" % (path, t["size"], consts["$min"]))
+        if "$max" in consts and t["size"] > consts["$max"]:
+            out.append("%s: size %d > MaxSize %d" % (path, t["size"], consts["$max"]))
+    return out
+
+
 def _check_case_outputs(chk, case, sweep, answers, stats):
     """Spec oracles on the real outputs.  Returns list of parsed trees (None where crashed)."""
     trees = []
     prev = None
+    seen_consts = {}
     for (cmd, si, pv, data, g), ans in zip(sweep, answers):
         if ans is None:
             trees.append(None)
@@ -71,6 +105,16 @@ def _check_case_outputs(chk, case, sweep, answers, stats):
                     "prefix keeps its value on the longer one", "differences": bad[:8]},
                     key=key)
         prev = (g, t, cmd, ans)
+        # (1b) size constants
+        cbad = constants_violations(t, (si.name, tuple(pv)), seen_consts)
+        stats["constants_checked"] += 1
+        if cbad:
+            stats["constants_violations"] += 1
+            only_above_max = all("> MaxSize" in b for b in cbad)
+            chk.violation("input", {"module": case.text, "case": case.name, "command": cmd, "observed": ans,
+                                    "expected": "Min/MaxSizeIn… are constants and bracket the reported size",
+                                    "differences": cbad[:8]},
+                          key=KEY_ARG if only_above_max and viewcorr.param_range_escapes(case.prepared) else None)
         # (2) reference semantics
         ref = viewcorr.reference_obs(case, si, pv, data)
         if ref is not None:
@@ -78,6 +122,7 @@ def _check_case_outputs(chk, case, sweep, answers, stats):
             d = embref.diff(t, ref)
             if d:
                 stats["reference_diffs"] += 1
+            if d and stats["reference_diffs"] <= 10:
                 chk.violation("input", {"module": case.text, "case": case.name, "command": cmd,
                                         "observed": ans, "expected": "reference semantics (embref)",
                                         "differences": d[:8]})
@@ -97,7 +142,7 @@ def _run(chk, tier, model_ok):
     t0 = time.time()
     n_random = 16 if quick else 120
     n_base = 5 if quick else 12
-    cases, dist = viewcorr.make_cases(chk, r, n_random, corpus_prop=PROP)
+    cases, dist = viewcorr.make_cases(chk, r, n_random, corpus_prop=PROP, logic_probes=True)
     pinned = []
     for k in chk.known:
         if k.get("property") == PROP and k.get("status") == "open":
@@ -124,6 +169,9 @@ def _run(chk, tier, model_ok):
         if rr.kind == "ok" and len(out) == 2 and \
                 cppdrv.monotone_violations(cppdrv.parse_obs(out[0]), cppdrv.parse_obs(out[1])):
             chk.report_known(k)
+        elif rr.kind == "ok" and len(out) == 1 and json.loads(k["input"]).get("expect") == "size-above-max":
+            if any("> MaxSize" in b for b in constants_violations(cppdrv.parse_obs(out[0]), ("pinned",), {})):
+                chk.report_known(k)
         elif rr.kind == "ok" and len(out) == 1 and json.loads(k["input"]).get("expect_ok_field"):
             t = cppdrv.parse_obs(out[0])
             if any(n == json.loads(k["input"])["expect_ok_field"] and o.get("ok") for n, _h, o in t["fields"]):
